@@ -297,6 +297,21 @@ Definition in_toks (neg : bool) : toks :=
 Definition like_toks (neg : bool) : toks :=
   if neg then [tk KNot "NOT"; tk KLike "LIKE"] else [tk KLike "LIKE"].
 
+(* a then-branch is written without parentheses only when it begins with a
+   token that can never follow an operand (a string / number / boolean literal,
+   '[', '{', '@') or is a plain identifier: after "cond ?" such a token
+   settles that the '?' is the ternary's, also when cond ends in ')' where it
+   could otherwise be the error operator (x ? -1 : 2 is unambiguous, but
+   F() ? -1 : 2 read from the left could start as F()? - 1).  Every other
+   then-branch, a nested ternary included, is parenthesised. *)
+Definition then_safe (t : expr) : bool :=
+  match t with
+  | EStr _ | EBool _ | EFloat _ | EArr _ | EObj _ | EParam _ => true
+  | EInt z => (0 <=? z)%Z
+  | EVar x => match word_kind (runes_of x) with KIdent => true | _ => false end
+  | _ => false
+  end.
+
 Section Printer.
   Variable extra : expr -> bool.
   Definition needs (m : nat) (x : expr) : bool := (level x <? m)%nat || extra x.
@@ -336,7 +351,7 @@ Section Printer.
     | ECond c t f =>
         wrap (needs 1 c) (body c) ++ tk KQuestion "?" ::
         match t with
-        | Some t' => wrap (needs 2 t') (body t')      (* a nested ternary is parenthesised *)
+        | Some t' => wrap (needs 2 t' || negb (then_safe t')) (body t')
         | None => []
         end ++ tk KColon ":" :: wrap (needs 2 f) (body f)
     | ECmp o a b => wrap (needs 8 a) (body a) ++ cmp_tok o :: wrap (needs 9 b) (body b)
